@@ -1877,6 +1877,8 @@ class Engine:
             return b_not(r) if isinstance(op, ast.NotIn) else r
         if isinstance(op, (ast.Eq, ast.NotEq)):
             r = self.py_eq(a, b)
+            if isinstance(r, NDArr) and isinstance(op, ast.NotEq):
+                return NDArr(mapnd(lambda v: b_not(self.truth(v)), r.data))
             return b_not(r) if isinstance(op, ast.NotEq) else r
         sym = {ast.Lt: '<', ast.LtE: '<=', ast.Gt: '>', ast.GtE: '>='}[type(op)]
         if isinstance(a, NDArr) or isinstance(b, NDArr):
@@ -2085,7 +2087,25 @@ class Engine:
         if isinstance(a, (NDArr,)) or isinstance(b, (NDArr,)):
             if isinstance(op, ast.MatMult):
                 return self.matmul(a, b)
-            return self.nd_binary(lambda x, y: self.binop(op, x, y), a, b)
+            mask = getattr(b, 'masked_by', None) if isinstance(b, NDArr) else None
+            if isinstance(op, ast.Div) and mask is not None and isinstance(a, NDArr) and a.shape == b.shape == mask.shape:
+                # x[mask] / y[mask]: numpy divides the selected elements only
+                fa, fb, fm = flat(a.data), flat(b.data), flat(mask.data)
+                outv = []
+                for x, y, m_ in zip(fa, fb, fm):
+                    if self.decide(self.truth(m_)):
+                        outv.append(self.binop(op, x, y))
+                    else:
+                        outv.append(0)
+                it_ = iter(outv)
+                r = NDArr(mapnd(lambda v: next(it_), a.data))
+                r.masked_by = mask
+                return r
+            r = self.nd_binary(lambda x, y: self.binop(op, x, y), a, b)
+            for o in (a, b):
+                if isinstance(o, NDArr) and getattr(o, 'masked_by', None) is not None and isinstance(r, NDArr) and r.shape == o.shape:
+                    r.masked_by = o.masked_by
+            return r
         if isinstance(a, AStr) or isinstance(b, AStr):
             return self.str_binop(op, a, b)
         if isinstance(a, (tuple, list, SList)) or isinstance(b, (tuple, list, SList)):
@@ -2104,7 +2124,18 @@ class Engine:
                 bb = to_cx(b)
                 if self.decide(b_and(r_cmp('==', bb.re, 0), r_cmp('==', bb.im, 0))):
                     raise PyRaise('ZeroDivisionError', ())
-                return c_div(a, b)
+                q = c_div(a, b)
+                if isinstance(bb.im, SV) and isinstance(q.re, SV) and isinstance(q.im, SV):
+                    # name the quotient and hand the solver the (derived) product form q*b = a; b != 0 on this path
+                    self._qn = getattr(self, '_qn', 0) + 1
+                    nm = z3.Real('quot%d.re' % self._qn), z3.Real('quot%d.im' % self._qn)
+                    qq = CX(SV(nm[0], 'real'), SV(nm[1], 'real'))
+                    back = c_mul(qq, bb)
+                    aa = to_cx(a)
+                    self.pc.append(z3.And(nm[0] == term(q.re, True), nm[1] == term(q.im, True),
+                                          term(back.re, True) == term(aa.re, True), term(back.im, True) == term(aa.im, True)))
+                    return qq
+                return q
             if self.decide(r_cmp('==', b, 0)):
                 raise PyRaise('ZeroDivisionError', ())
             return r_div(a, b)
